@@ -12,7 +12,8 @@ class RegexpBaseToken(BaseToken):
 
     @classmethod
     def get(cls, expression: str, in_cell: Cell):
-        result = re.findall(rf'^({cls.regexp})({cls.last_match_regexp})$', expression)
+        # DOTALL: the rest of the formula may contain line breaks (they are whitespace between tokens)
+        result = re.findall(rf'^({cls.regexp})({cls.last_match_regexp})$', expression, re.DOTALL)
 
         if result:
             return cls(result[0][cls.value_range[0]:cls.value_range[1]], in_cell), result[0][-1]
